@@ -46,9 +46,68 @@ fn sequential_big(plan: &Plan) -> ! {
     finish(&vv, plan)
 }
 
+/// one thread: keyed and whole-map operations from the initial registry of the solver's model, against a reference map kept here
+fn listing(plan: &Plan) -> ! {
+    use std::collections::HashMap;
+    let reg: Registry<Key, AtomicStorage> = Registry::new(AtomicStorage);
+    let inp = |k: &str| plan.inputs.get(k).copied().unwrap_or(0);
+    let kid_of = |k: &Key| -> u64 { k.name()[1..].parse().unwrap() };
+    let goc = |kind: &str, k: &Key| -> usize { match kind {
+        "counter" => reg.get_or_create_counter(k, |c| Arc::as_ptr(c) as usize),
+        "gauge" => reg.get_or_create_gauge(k, |c| Arc::as_ptr(c) as usize),
+        _ => reg.get_or_create_histogram(k, |c| Arc::as_ptr(c) as *const u8 as usize) } };
+    let mut live: HashMap<(String, u64), usize> = HashMap::new();
+    for kind in ["counter", "gauge", "histogram"] { for k in 1..=4u64 {
+        if inp(&format!("pre_{}_{}", kind, k)) == 1 { live.insert((kind.to_string(), k), goc(kind, &key(k, 0))); }
+    } }
+    let mut v: Vec<String> = vec![];
+    let role = plan.threads.iter().find(|t| t.0 == 1).map(|t| t.1.clone()).unwrap_or_default();
+    for (i, opdesc) in role.split_whitespace().enumerate() {
+        let p: Vec<&str> = opdesc.split(':').collect();
+        let (op, kind) = (p[0], p[1]);
+        let kid: u64 = p[2].parse().unwrap_or(0);
+        let k = key(kid.max(1), i);
+        let want: Vec<(u64, usize)> = { let mut w: Vec<(u64, usize)> = live.iter().filter(|(kk, _)| kk.0 == kind).map(|(kk, a)| (kk.1, *a)).collect(); w.sort(); w };
+        match op {
+            "get_or_create" => { let a = goc(kind, &k); live.entry((kind.to_string(), kid)).or_insert(a); }
+            "delete" => { match kind { "counter" => { reg.delete_counter(&k); } "gauge" => { reg.delete_gauge(&k); } _ => { reg.delete_histogram(&k); } } live.remove(&(kind.to_string(), kid)); }
+            "get" => {
+                let got = match kind { "counter" => reg.get_counter(&k).is_some(), "gauge" => reg.get_gauge(&k).is_some(), _ => reg.get_histogram(&k).is_some() };
+                let exp = live.contains_key(&(kind.to_string(), kid));
+                println!("step {}: get {} k{} -> {} (reference: {})", i, kind, kid, got, exp);
+                if got != exp { v.push("get_after_retain_clear_delete_reports_existence".to_string()); }
+            }
+            "visit" | "handles" => {
+                let mut got: Vec<(u64, usize)> = vec![];
+                match (op, kind) {
+                    ("visit", "counter") => reg.visit_counters(|kk, c| got.push((kid_of(kk), Arc::as_ptr(c) as usize))),
+                    ("visit", "gauge") => reg.visit_gauges(|kk, c| got.push((kid_of(kk), Arc::as_ptr(c) as usize))),
+                    ("visit", _) => reg.visit_histograms(|kk, c| got.push((kid_of(kk), Arc::as_ptr(c) as *const u8 as usize))),
+                    (_, "counter") => for (kk, c) in reg.get_counter_handles() { got.push((kid_of(&kk), Arc::as_ptr(&c) as usize)); },
+                    (_, "gauge") => for (kk, c) in reg.get_gauge_handles() { got.push((kid_of(&kk), Arc::as_ptr(&c) as usize)); },
+                    _ => for (kk, c) in reg.get_histogram_handles() { got.push((kid_of(&kk), Arc::as_ptr(&c) as *const u8 as usize)); },
+                }
+                got.sort();
+                println!("step {}: {} {} -> {:?} (reference: {:?})", i, op, kind, got, want);
+                if got != want { v.push("listing_reports_exactly_the_live_keys".to_string()); }
+            }
+            "retain" => {
+                let keep = |kk: &Key| inp(&format!("keep{}", kid_of(kk))) == 1;
+                match kind { "counter" => reg.retain_counters(|kk, _| keep(kk)), "gauge" => reg.retain_gauges(|kk, _| keep(kk)), _ => reg.retain_histograms(|kk, _| keep(kk)) }
+                live.retain(|kk, _| kk.0 != kind || inp(&format!("keep{}", kk.1)) == 1);
+            }
+            "clear" => { reg.clear(); live.clear(); }
+            _ => panic!("op {}", op),
+        }
+    }
+    let vv: Vec<&str> = v.iter().map(|s| s.as_str()).collect();
+    finish(&vv, plan)
+}
+
 fn main() {
     let plan = load_plan(&std::env::args().nth(1).expect("plan"));
     if plan.scenario.starts_with("c06_seq_goc_k1_k2") { sequential_big(&plan); }
+    if plan.scenario.starts_with("c06_list") { listing(&plan); }
     let reg: Arc<Registry<Key, AtomicStorage>> = Arc::new(Registry::new(AtomicStorage));
     install_filtered(plan.sched.clone(), &["rwlock_read", "rwlock_write"]);
     // (tid, idx, op, kind, key, storage address or 0/1 result)
